@@ -155,20 +155,7 @@ def classes(tokens):
                 before = tokens[q] if q >= 0 else None
                 if before in ('continue', 'break', 'var') or (before == ',' and 'var' in sig):
                     out.add('KF-05f')
-    # the `)` closing the header of a `with` STATEMENT (not a property named `with`) directly followed by a `/`
-    for i, t in enumerate(sig):
-        if t == 'with' and (i == 0 or sig[i - 1] != '.') and i + 1 < len(sig) and sig[i + 1] == '(':
-            depth, k = 0, i + 1
-            while k < len(sig):
-                if sig[k] == '(':
-                    depth += 1
-                elif sig[k] == ')':
-                    depth -= 1
-                    if depth == 0:
-                        break
-                k += 1
-            if k + 1 < len(sig) and starts_slash(sig[k + 1]):
-                out.add('KF-05a')
+    # (KF-05a, the `)` of a with header followed by `/`, was repaired by 4c0dced: no class, such inputs are judged)
     # a function at the start of a statement whose `}` is followed by something that continues an expression
     fstart = any(t == 'function' and (i == 0 or sig[i - 1] in (';', '{', '}', ')', ':', 'else', 'do'))
                  for i, t in enumerate(sig))
